@@ -225,6 +225,8 @@ class ExprBuilder:
             x = self.build(e["a"][0], top=True)
             return getattr(x, e["op"])()
         if k == "cast":
+            if e.get("g") and e["to"] == "float":
+                return self.build(e["e"], top=True).cast(pdt.Float())
             return self.build(e["e"], top=True).cast(PDT_TYPES[e["to"]]())
         if k == "map":
             x = self.build(e["e"], top=True)
